@@ -194,6 +194,9 @@ class ManifestContext:
             period.start = start
             self.periods.append(period)
             start += period.duration
+        # the presentation lasts as long as its Periods, not as long as the
+        # stream the last Period happens to play
+        self.mediaDuration = start
 
     def create_all_live_periods(self,
                                 multi_period: models.MultiPeriodStream) -> None:
